@@ -33,6 +33,8 @@ type Scenario struct {
 	Anno   bool     `json:"annotationStrategy"`
 	Orphan bool     `json:"orphan"`
 	Events int      `json:"thirdPartyEvents"`
+	// Foreground: the owner was deleted with foreground propagation (foregroundDeletion finalizer)
+	Foreground bool `json:"foreground"`
 }
 
 func (sc Scenario) String() string { b, _ := json.Marshal(sc); return string(b) }
@@ -121,6 +123,9 @@ func build(sc Scenario) *sys {
 	prop := ""
 	if sc.Orphan {
 		prop = "Orphan"
+	}
+	if sc.Foreground {
+		prop = "Foreground"
 	}
 	if err := w.S.Delete(s.ownKey, kmodel.DeleteOpts{Propagation: prop}); err != nil {
 		panic(err)
@@ -386,6 +391,11 @@ func scenarios(quick bool) []Scenario {
 			out = append(out, Scenario{States: []string{"foreign", st}, Target: 1, Anno: anno, Events: 1})
 		}
 	}
+	// the owner deleted with foreground propagation: its own teardown is as careful as ever
+	for _, anno := range []bool{false, true} {
+		out = append(out, Scenario{States: []string{"controlled", "controlled"}, Target: 0, Anno: anno, Foreground: true, Events: 2})
+		out = append(out, Scenario{States: []string{"controlled", "co-owned"}, Target: 1, Anno: anno, Foreground: true, Events: 1})
+	}
 	// orphan deletion
 	for _, anno := range []bool{false, true} {
 		out = append(out, Scenario{States: []string{"controlled", "co-owned"}, Target: 0, Anno: anno, Orphan: true, Events: 1})
@@ -410,7 +420,7 @@ func run(o checks.Opts) *report.Report {
 	rep.Bounds["preemptions"] = bound
 	scs := scenarios(o.Quick())
 	rep.Bounds["scenarios"] = len(scs)
-	rep.Rule = "for every initial ownership state of the phase's objects (controlled / co-owned / foreign / absent per object, plus controlled without the cache label and held by a foreign finalizer, and owned - as the only owner - but not controlled), target object, owner strategy (native ObjectSet, annotation ObjectSetPhase) and orphan deletion: every interleaving, with <= 2 preemptions at API-call granularity, of one real teardown pass with up to two third-party actions (re-own to another controller, delete+re-create unowned / owned by another, modify spec, strip owners); monitors on every request of the pass; distinct = (survivors, pass error)"
+	rep.Rule = "for every initial ownership state of the phase's objects (controlled / co-owned / foreign / absent per object, plus controlled without the cache label and held by a foreign finalizer, and owned - as the only owner - but not controlled), target object, owner strategy (native ObjectSet, annotation ObjectSetPhase), orphan deletion and foreground deletion of the owner: every interleaving, with <= 2 preemptions at API-call granularity, of one real teardown pass with up to two third-party actions (re-own to another controller, delete+re-create unowned / owned by another, modify spec, strip owners); monitors on every request of the pass; distinct = (survivors, pass error)"
 	for i, sc := range scs {
 		if o.Shards > 1 && i%o.Shards != o.Shard {
 			continue
